@@ -153,7 +153,7 @@ Proof. unfold pgood. rewrite proj_app. apply good_in_app. Qed.
 Inductive pcordered : list pevent -> Prop :=
 | pco_nil : pcordered []
 | pco_snoc log e : pcordered log ->
-    (forall t w, e = PStart t w -> forall x, In x (static_deps t) -> pgood log x) ->
+    (forall t w, e = PStart t w -> forall x, eff_dep tasks t x -> pgood log x) ->
     pcordered (log ++ [e]).
 
 Lemma pcordered_app_nostart log evs :
@@ -167,7 +167,7 @@ Proof.
 Qed.
 
 Lemma pcordered_split log : pcordered log ->
-  forall pre t w post, log = pre ++ PStart t w :: post -> forall x, In x (static_deps t) -> pgood pre x.
+  forall pre t w post, log = pre ++ PStart t w :: post -> forall x, eff_dep tasks t x -> pgood pre x.
 Proof.
   induction 1 as [|log e Ho IH He]; intros pre t w post E x Hx.
   - destruct pre; discriminate.
@@ -192,11 +192,11 @@ Qed.
 (* a task whose job is queued / running / whose result is queued: it was selected to run and its
    dependencies had finished *)
 Definition ready (p : pstate) (k : name) : Prop :=
-  st_of (r_d (p_r p)) k <> SNone /\ forall x, In x (static_deps k) -> good_in (r_tr (p_r p)) x.
+  st_of (r_d (p_r p)) k <> SNone /\ forall x, eff_dep tasks k x -> good_in (r_tr (p_r p)) x.
 Lemma good_in_finished tr x : good_in tr x -> finished_in tr x.
 Proof. intros (e & A & B & _). apply finished_in_In. eauto. Qed.
 Lemma ready_deps p k : ready p k -> forall x, In x (static_deps k) -> finished_in (r_tr (p_r p)) x.
-Proof. intros [_ H] x Hx. apply good_in_finished. apply H. exact Hx. Qed.
+Proof. intros [_ H] x Hx. apply good_in_finished. apply H. apply ed_static. exact Hx. Qed.
 
 (* ... it is in its `run` phase (nothing reported yet), will not be handed over again, and occurs once *)
 Definition live (p : pstate) : list name :=
@@ -251,13 +251,13 @@ Qed.
 
 Lemma plog_PI p evs :
   PI p -> (forall t w, In (PStart t w) evs ->
-             (forall x, In x (static_deps t) -> good_in (r_tr (p_r p)) x) /\ evs = [PStart t w] /\
+             (forall x, eff_dep tasks t x -> good_in (r_tr (p_r p)) x) /\ evs = [PStart t w] /\
              ~ In t (pstarts (p_log p)) /\ ~ In t (job_tasks (p_jobs p)) /\ spent tasks (r_d (p_r p)) t) ->
   (forall e, In e evs -> is_pe e = false) ->
   PI (plog p evs).
 Proof.
   intros HP Hs0 Hnf.
-  assert (Hs : forall t w, In (PStart t w) evs -> forall x, In x (static_deps t) -> good_in (r_tr (p_r p)) x)
+  assert (Hs : forall t w, In (PStart t w) evs -> forall x, eff_dep tasks t x -> good_in (r_tr (p_r p)) x)
     by (intros t w Hin; apply (Hs0 t w Hin)).
   pose proof (sync_PI p HP) as HS. unfold plog.
   assert (Iq : proj (p_log (sync p)) = r_tr (p_r p)).
@@ -280,11 +280,11 @@ Proof.
         + constructor; auto. intros t w -> x Hx. apply Hf. apply (Hl t w); [left; reflexivity|exact Hx].
         + intros x Hx. apply pfinished_app. apply Hf. exact Hx.
         + intros t w Hin. apply (Hl t w). right. exact Hin. }
-    apply G0; [exact E|exact Hall|]. intros t w Hin x Hx. apply good_in_finished. apply (Hs t w Hin x Hx).
+    apply G0; [exact E|exact Hall|]. intros t w Hin x Hx. apply good_in_finished. apply (Hs t w Hin x). apply ed_static. exact Hx.
   - rewrite proj_app, (proj_nope evs Hnf), app_nil_r. exact I.
   - assert (G1 : forall l log0, pcordered log0 ->
                (forall x, good_in (r_tr (p_r p)) x -> pgood log0 x) ->
-               (forall t w, In (PStart t w) l -> forall x, In x (static_deps t) -> good_in (r_tr (p_r p)) x) ->
+               (forall t w, In (PStart t w) l -> forall x, eff_dep tasks t x -> good_in (r_tr (p_r p)) x) ->
                pcordered (log0 ++ l)).
     { induction l as [|e l IH]; intros log0 H0 Hf Hl.
       - rewrite app_nil_r. exact H0.
@@ -960,7 +960,7 @@ Qed.
 (* ... and a task with a dependency that did not end well is never started *)
 Theorem parallel_bad_dep_never_runs fuel nprocs sched sel t w x e :
   let log := fst (run_parallel tasks wake_rank calc_rank continue_ always proc fuel nprocs sched sel) in
-  In x (static_deps t) -> In (PE e) log -> is_final_ev x e = true -> is_good_ev e = false -> ~ In (PStart t w) log.
+  eff_dep tasks t x -> In (PE e) log -> is_final_ev x e = true -> is_good_ev e = false -> ~ In (PStart t w) log.
 Proof.
   cbv zeta. intros Hx He Hf Hbad Hst.
   pose proof (parallel_one_final fuel nprocs sched sel) as Ho.
